@@ -194,11 +194,7 @@ func (i *InMemCollector) Start() error {
 	i.done = make(chan struct{})
 	i.reload = make(chan struct{}, 1)
 
-	if i.Config.GetAddHostMetadataToTrace() {
-		if hostname, err := os.Hostname(); err == nil && hostname != "" {
-			i.hostname = hostname
-		}
-	}
+	i.updateHostname()
 
 	// Initialize runtime/metrics sample for efficient memory monitoring
 	i.memMetricSample = make([]rtmetrics.Sample, 1)
@@ -238,8 +234,32 @@ func (i *InMemCollector) sendReloadSignal(cfgHash, ruleHash string) {
 	}
 }
 
+// updateHostname sets the hostname added to forwarded spans according to the
+// current value of AddHostMetadataToTrace (empty means "do not add").
+func (i *InMemCollector) updateHostname() {
+	hostname := ""
+	if i.Config.GetAddHostMetadataToTrace() {
+		if h, err := os.Hostname(); err == nil {
+			hostname = h
+		}
+	}
+	i.mutex.Lock()
+	i.hostname = hostname
+	i.mutex.Unlock()
+}
+
+// localHostname returns the hostname to add to forwarded spans, or "" for none.
+func (i *InMemCollector) localHostname() string {
+	i.mutex.RLock()
+	defer i.mutex.RUnlock()
+	return i.hostname
+}
+
 func (i *InMemCollector) reloadConfigs() {
 	i.Logger.Debug().Logf("reloading in-mem collect config")
+
+	// AddHostMetadataToTrace is reloadable
+	i.updateHostname()
 
 	i.SamplerFactory.ClearDynsamplers()
 
@@ -481,8 +501,8 @@ func (i *InMemCollector) ProcessSpanImmediately(sp *types.Span) (processed bool,
 	if i.Config.GetAddRuleReasonToTrace() {
 		sp.Data.Set(types.MetaRefineryReason, reason)
 	}
-	if i.hostname != "" {
-		sp.Data.Set(types.MetaRefineryLocalHostname, i.hostname)
+	if hostname := i.localHostname(); hostname != "" {
+		sp.Data.Set(types.MetaRefineryLocalHostname, hostname)
 	}
 
 	i.addAdditionalAttributes(sp)
@@ -500,7 +520,7 @@ func (i *InMemCollector) dealWithSentTrace(ctx context.Context, tr cache.TraceSe
 	_, span := otelutil.StartSpanMulti(ctx, i.Tracer, "dealWithSentTrace", map[string]interface{}{
 		"trace_id":    sp.TraceID,
 		"kept_reason": keptReason,
-		"hostname":    i.hostname,
+		"hostname":    i.localHostname(),
 	})
 	defer span.End()
 
@@ -515,8 +535,8 @@ func (i *InMemCollector) dealWithSentTrace(ctx context.Context, tr cache.TraceSe
 		sp.Data.Set(types.MetaRefinerySendReason, TraceSendLateSpan)
 
 	}
-	if i.hostname != "" {
-		sp.Data.Set(types.MetaRefineryLocalHostname, i.hostname)
+	if hostname := i.localHostname(); hostname != "" {
+		sp.Data.Set(types.MetaRefineryLocalHostname, hostname)
 	}
 	isDryRun := i.Config.GetIsDryRun()
 	keep := tr.Kept()
@@ -740,8 +760,8 @@ func (i *InMemCollector) sendTraces() {
 			if isDryRun {
 				sp.Data.Set(config.DryRunFieldName, t.shouldSend)
 			}
-			if i.hostname != "" {
-				sp.Data.Set(types.MetaRefineryLocalHostname, i.hostname)
+			if hostname := i.localHostname(); hostname != "" {
+				sp.Data.Set(types.MetaRefineryLocalHostname, hostname)
 			}
 			mergeTraceAndSpanSampleRates(sp, t.SampleRate(), isDryRun)
 			i.addAdditionalAttributes(sp)
